@@ -102,6 +102,22 @@ def windowTs (c : Cfg) (s : State α) (start end_ : Int) (fill : Option (Option 
         | some f => fillGaps c raw f (winFillOrigin st (slotTime c ns)) s.gaps
     | _, _ => []
 
+/-- Does `window(start, end)` for two datetimes raise `IndexError`?  The only place that can is `to_internal_index` of
+the two clamped bounds, which is reached when the span is not empty; its range test is the translated `tiiOutside`
+(in slot numbers, as in `atSlot`).  `windowTs` is the value returned when this is `false`. -/
+def windowTsRaises (c : Cfg) (s : State α) (start end_ : Int) : Bool :=
+  if countCovered s = 0 then false
+  else
+    match oldestTs s, newestTs s, s.newest with
+    | some o, some n, some nw =>
+      let st := winClampStart start (slotTime c o)
+      let en := winClampEnd end_ (slotTime c n) c.period
+      let ns := normSlot c st
+      let ne := normSlot c en
+      if winEmpty st en (slotTime c ns) (slotTime c ne) then false
+      else decide (tiiOutside ns nw (oldestOf s.cap nw) 1) || decide (tiiOutside ne nw (oldestOf s.cap nw) 1)
+    | _, _, _ => false
+
 /-- `window(i, j, fill_value=fill)` for two indices / `None`. -/
 def windowIdx (c : Cfg) (s : State α) (i j : Option Int) (fill : Option (Option α)) : List (Option α) :=
   if countCovered s = 0 then []
